@@ -41,6 +41,12 @@ def main():
         json.loads(sys.argv[6])
     scratch = os.environ["VERIF_SCRATCH"]
     sys.path.insert(0, scratch)
+    if os.environ.get("VERIF_COVERAGE"):     # development aid, see vlib/cover.py
+        sys.path.insert(1, os.path.dirname(os.path.dirname(os.path.abspath(__file__))))
+        from vlib import cover
+        cover.start(scratch)
+        import atexit
+        atexit.register(cover.dump)
     from configparser import ConfigParser
     from jellyfysh.base import factory
     from jellyfysh.base.exceptions import EndOfRun
